@@ -244,6 +244,46 @@ pub fn at_caught_up(r: &mut Runner, _repo_inst: usize, rpres: &RpResult) {
             );
         }
     }
+    // "Re-issued and published": once background work has caught up the
+    // repository holds, for every key, the manifest the CA has stored -
+    // a re-issue that stays in the CA's object set only does not refresh
+    // anything a relying party sees.
+    let cas: Vec<crate::model::MCa> = r.model.cas.values()
+        .filter(|c| {
+            r.world.inst(c.inst).is_up() && !c.orphaned && c.has_repo
+        }).cloned().collect();
+    for mca in cas {
+        let sets = crate::objsets::read(
+            r.world.inst(mca.inst).rt(), &mca.name
+        );
+        for class in &sets {
+            for set in &class.sets {
+                let Some(pp) = rpres.pub_points.iter().find(|pp| {
+                    pp.ca_key.to_string().eq_ignore_ascii_case(&set.key_id)
+                }) else { continue };
+                let published: Option<u128>
+                    = pp.mft_number.to_string().parse().ok();
+                if let Some(published) = published {
+                    r.stat("c14.published_number_compared");
+                    if published != set.number as u128 {
+                        r.violation(
+                            "C14", "reissued_not_published",
+                            format!(
+                                "CA {} class {} key {} ({}): the stored \
+                                 object set is at manifest number {} (next \
+                                 update {}), the repository serves number \
+                                 {published} (next update {}) although \
+                                 background work has caught up",
+                                mca.name, class.rcn, set.key_id, set.role,
+                                set.number, set.next_update,
+                                pp.mft_next_update.timestamp()
+                            )
+                        );
+                    }
+                }
+            }
+        }
+    }
     // Stale manifests/CRLs and expired signed objects or router
     // certificates. Child CA certificates are renewed at the child's
     // request, not by the maintenance tasks; they are not judged here.
